@@ -224,6 +224,10 @@ class Cutter(ast.NodeTransformer):
         for t in tmpl:
             r = Fill().visit(t)
             out += r if isinstance(r, list) else [r]
+        # concrete instances of a contract may ask for the loop to run natively (rt.native_while): the original `while`, uncut
+        tick = ast.Expr(ast.Call(ast.Attribute(ast.Name("__pv", ast.Load()), "native_tick", ast.Load()), [ast.Constant(k)], []))
+        native = ast.While(test=copy.deepcopy(node.test), body=[tick] + copy.deepcopy(node.body), orelse=[])
+        out = [ast.If(test=ast.Call(ast.Attribute(ast.Name("__pv", ast.Load()), "native_while", ast.Load()), [ast.Constant(k)], []), body=[native], orelse=out)]
         for o in out:
             ast.copy_location(o, node)
             for sub in ast.walk(o):
